@@ -46,8 +46,7 @@ CLAIMS = {
                 "rule (accepted iff untyped or same type; range-vs-plural mix and range type mismatch reported with the "
                 "right payload).",
         "note": "Not shown: the converse (no spurious argument): vstd specifies BTreeMap::values() only as 'every value is "
-                "listed'. Assumed: A3 `BTreeMap::entry(k).or_default()`; Option::replace, mem::take, Box::from; the contract "
-                "of Ranges::get_keys_inner (loop over typed branch vectors); a resolved foreign key contributes what the "
+                "listed'. Assumed: A3 `BTreeMap::entry(k).or_default()`; Option::replace, mem::take, Box::from; a resolved foreign key contributes what the "
                 "referenced value contributes; lawfulness of Key / PluralForm ordering. Termination of get_keys_inner is not "
                 "proved (recursion through the RefCell of a foreign key). Not covered: ParsedValue::merge (where the calls per "
                 "locale are made), the typed builder (rustc).",
